@@ -830,9 +830,16 @@ class PX:
                 return None
             v = self.read_local(st, fr, 0)
             # a promoted is `&value`: represent as a ref to a pseudo-static holding the value
-            if v[0] == "ref":
-                inner = self._read(st, v[1], v[2])
-                v = ("refconst", inner)
+            # (references nested in the value point into the promoted's own frame: resolve them now)
+            def resolve(t, d=0):
+                if not isinstance(t, tuple) or not t or d > 6:
+                    return t
+                if t[0] == "ref":
+                    return ("refconst", resolve(self._read(st, t[1], t[2]), d + 1))
+                if t[0] == "agg":
+                    return ("agg", t[1], t[2], t[3], tuple((n, resolve(x, d + 1)) for n, x in t[4]))
+                return t
+            v = resolve(v)
             cache[pname] = v
             return v
         except Exception:
